@@ -154,9 +154,21 @@ def _flock(name: str):
             fcntl.flock(fh, fcntl.LOCK_UN)
 
 
-def ensure_built(targets=("ProcSim", "psdriver")) -> float:
-    """`lake build` (a no-op when up to date). Failure is an infrastructure error, never a verdict."""
+def _claimed_modules() -> list[str]:
+    try:
+        with open(os.path.join(VERIF, "theorems.json")) as fh:
+            reg = json.load(fh)
+        return sorted({t["module"] for ent in reg.values() for t in ent.get("theorems", [])})
+    except (OSError, ValueError):
+        return []
+
+
+def ensure_built(targets=None) -> float:
+    """`lake build` of the driver and of every module a registered theorem lives in (a no-op when up to date; the
+    setup command builds the whole library). Failure is an infrastructure error, never a verdict."""
     t0 = time.time()
+    if targets is None:
+        targets = ["psdriver", *_claimed_modules()]
     with _flock("lake"):
         stamp = os.path.join(CACHE, "built-" + lean_hash()[:24])
         if os.path.exists(stamp) and os.path.exists(DRIVER):
